@@ -27,10 +27,10 @@ CAT_REV = dict((v, k) for k, v in CAT.items())
 PROTO = 'protocolSupportEnumeration="urn:oasis:names:tc:SAML:2.0:protocol"'
 
 
-def entity_xml(e, src, facts, keys, valid_until=None, evil=False):
+def entity_xml(e, src, facts, keys, valid_until=None, evil=False, old=False):
     vu = ' validUntil="%s"' % valid_until if valid_until else ''
     x = '<md:EntityDescriptor %s entityID="%s"%s>' % (env.MD_NS, EID[e], vu)
-    if e == 'e2':
+    if e == 'e2' or (old and e == 'e1'):
         x += ('<md:Extensions><mdattr:EntityAttributes xmlns:mdattr="urn:oasis:names:tc:SAML:metadata:attribute">'
               '<saml:Attribute xmlns:saml="%s" Name="http://macedir.org/entity-category" '
               'NameFormat="urn:oasis:names:tc:SAML:2.0:attrname-format:uri">%s</saml:Attribute></mdattr:EntityAttributes></md:Extensions>'
@@ -56,6 +56,8 @@ def entity_xml(e, src, facts, keys, valid_until=None, evil=False):
                   'NameFormat="urn:oasis:names:tc:SAML:2.0:attrname-format:uri" FriendlyName="mail"/>'
                   '<md:RequestedAttribute Name="urn:oid:2.5.4.12" NameFormat="urn:oasis:names:tc:SAML:2.0:attrname-format:uri" '
                   'FriendlyName="title" isRequired="false"/>'
+                  '<md:RequestedAttribute Name="urn:oid:2.5.4.4" NameFormat="urn:oasis:names:tc:SAML:2.0:attrname-format:uri" '
+                  'FriendlyName="sn" isRequired="0"/>'
                   '</md:AttributeConsumingService>')
         x += '</md:%s>' % TAG[role]
     return x + '</md:EntityDescriptor>'
@@ -67,11 +69,15 @@ def when(v):
             'pastOffset': env.ts(now - 3600, 'offPlus')}[v]
 
 
-def source_a(case):
+def source_a(case, old=False):
     scn = case['scn']
     facts, keys = case['facts'], case['keys']
-    eds = entity_xml('e1', 'A', facts, keys, when(scn['vuE1'])) + entity_xml('e2', 'A', facts, keys)
-    vu = when(scn['vuDoc'])
+    if old:
+        # the earlier content of the same source: other locations, other keys, e1 with categories it no longer has
+        facts = [dict(f, loc='old-' + f['loc']) for f in facts]
+        keys = [dict(k, key={'kIdp1': 'kAttacker', 'kSp': 'kIdp2'}.get(k['key'], k['key'])) for k in keys]
+    eds = entity_xml('e1', 'A', facts, keys, None if old else when(scn['vuE1']), old=old) + entity_xml('e2', 'A', facts, keys, old=old)
+    vu = None if old else when(scn['vuDoc'])
     sig = sb.signature_template('fedA', 'sha256') if scn['sig'] != 'none' else ''
     doc = env.entities_descriptor(eds, ident='fedA', valid_until=vu, prefix=sig, name='urn:verif:fedA')
     if scn['sig'] == 'none':
@@ -119,9 +125,63 @@ class FakeHttp(object):
         return r
 
 
+def load_source(mds, src, doc, scn):
+    if src == 'A' and scn['cert']:
+        mds.http = FakeHttp(doc.encode('utf-8'))
+        if scn.get('via') == 'imp':
+            mds.imp([{'class': 'saml2_tophat.mdstore.MetaDataExtern',
+                      'metadata': [('https://md.verif.example/fedA.xml', env.certfile('kMd'))]}])
+        else:
+            mds.load('remote', url='https://md.verif.example/fedA.xml', cert=env.certfile('kMd'))
+    elif src == 'B' and scn.get('bLoose'):
+        mds.http = FakeHttp(doc.encode('utf-8'))
+        mds.load('remote', url='https://md.verif.example/fedB.xml', check_validity=False)
+    elif src == 'A' and (scn.get('bLoose') or scn.get('reload')):
+        path = os.path.join(sb.tmpdir(), 'fedA-%d.xml' % os.getpid())
+        with open(path, 'w') as f:
+            f.write(doc)
+        mds.load('local', path)
+    else:
+        mds.load('inline', doc)
+
+
+def ask(mds, a):
+    from saml2_tophat.s_utils import UnknownSystemEntity, UnsupportedBinding
+    e = EID[a['e']]
+    try:
+        if a['q'] == 'service':
+            if a['svc'] == 'single_sign_on_service':
+                r = mds.single_sign_on_service(e, B[a['b']])
+            elif a['svc'] == 'single_logout_service':
+                r = mds.single_logout_service(e, B[a['b']], a['role'])
+            elif a['svc'] == 'assertion_consumer_service':
+                r = mds.assertion_consumer_service(e, B[a['b']])
+            else:
+                r = mds.attribute_service(e, B[a['b']])
+            locs = sorted(set(s['location'].rsplit('/', 1)[1] if s['location'].startswith('https://md.verif.example/')
+                              else s['location'] for s in r))
+            return {'r': 'set', 'v': locs}
+        if a['q'] == 'certs':
+            r = mds.certs(e, a['role'], a['use'])
+            return {'r': 'set', 'v': sorted(set(keyname(c) for c in r))}
+        if a['q'] == 'attrreq':
+            r = mds.attribute_requirement(e)
+            if r is None:
+                return {'r': 'none'}
+            return {'r': 'attrs', 'req': sorted(x.get('friendly_name') or x.get('name') for x in r['required']),
+                    'opt': sorted(x.get('friendly_name') or x.get('name') for x in r['optional'])}
+        r = mds.entity_categories(e)
+        return {'r': 'set', 'v': sorted(CAT_REV.get(c, c) for c in r)}
+    except UnknownSystemEntity:
+        return {'r': 'UnknownSystemEntity'}
+    except UnsupportedBinding:
+        return {'r': 'UnsupportedBinding'}
+    except KeyError:
+        return {'r': 'KeyError'}
+
+
 def replay(case):
     from saml2_tophat.mdstore import MetadataStore
-    from saml2_tophat.s_utils import UnknownSystemEntity, UnsupportedBinding
     scn = case['scn']
     sp = spc.sp_for()
     mds = MetadataStore(sp.config.attribute_converters, sp.config)
@@ -129,62 +189,20 @@ def replay(case):
     load_log = []
     for src in (['A', 'B'] if scn['order'] == 'AB' else ['B', 'A']):
         try:
-            if src == 'A' and scn['cert']:
-                mds.http = FakeHttp(docs['A'].encode('utf-8'))
-                if scn.get('via') == 'imp':
-                    mds.imp([{'class': 'saml2_tophat.mdstore.MetaDataExtern',
-                              'metadata': [('https://md.verif.example/fedA.xml', env.certfile('kMd'))]}])
-                else:
-                    mds.load('remote', url='https://md.verif.example/fedA.xml', cert=env.certfile('kMd'))
-            elif src == 'B' and scn.get('bLoose'):
-                mds.http = FakeHttp(docs['B'].encode('utf-8'))
-                mds.load('remote', url='https://md.verif.example/fedB.xml', check_validity=False)
-            elif src == 'A' and scn.get('bLoose'):
-                path = os.path.join(sb.tmpdir(), 'fedA-%d.xml' % os.getpid())
-                with open(path, 'w') as f:
-                    f.write(docs['A'])
-                mds.load('local', path)
-            else:
-                mds.load('inline', docs[src])
+            load_source(mds, src, source_a(case, old=True) if (src == 'A' and scn.get('reload')) else docs[src], scn)
             load_log.append([src, 'ok'])
         except Exception as exc:
             load_log.append([src, type(exc).__name__])
-    out = {'load': load_log, 'answers': [], 'docA': docs['A']}
-    for a in case['answers']:
-        e = EID[a['e']]
-        try:
-            if a['q'] == 'service':
-                if a['svc'] == 'single_sign_on_service':
-                    r = mds.single_sign_on_service(e, B[a['b']])
-                elif a['svc'] == 'single_logout_service':
-                    r = mds.single_logout_service(e, B[a['b']], a['role'])
-                elif a['svc'] == 'assertion_consumer_service':
-                    r = mds.assertion_consumer_service(e, B[a['b']])
-                else:
-                    r = mds.attribute_service(e, B[a['b']])
-                locs = sorted(set(s['location'].rsplit('/', 1)[1] if s['location'].startswith('https://md.verif.example/')
-                                  else s['location'] for s in r))
-                obs = {'r': 'set', 'v': locs}
-            elif a['q'] == 'certs':
-                r = mds.certs(e, a['role'], a['use'])
-                obs = {'r': 'set', 'v': sorted(set(keyname(c) for c in r))}
-            elif a['q'] == 'attrreq':
-                r = mds.attribute_requirement(e)
-                if r is None:
-                    obs = {'r': 'none'}
-                else:
-                    obs = {'r': 'attrs', 'req': sorted(x.get('friendly_name') or x.get('name') for x in r['required']),
-                           'opt': sorted(x.get('friendly_name') or x.get('name') for x in r['optional'])}
-            else:
-                r = mds.entity_categories(e)
-                obs = {'r': 'set', 'v': sorted(CAT_REV.get(c, c) for c in r)}
-        except UnknownSystemEntity:
-            obs = {'r': 'UnknownSystemEntity'}
-        except UnsupportedBinding:
-            obs = {'r': 'UnsupportedBinding'}
-        except KeyError:
-            obs = {'r': 'KeyError'}
-        out['answers'].append(obs)
+    if scn.get('reload'):
+        for a in case['answers']:              # the store is used for a while ...
+            ask(mds, a)
+        load_log = [x for x in load_log if x[0] != 'A']
+        try:                                   # ... then the source is refreshed
+            load_source(mds, 'A', docs['A'], scn)
+            load_log.append(['A', 'ok (reloaded)'])
+        except Exception as exc:
+            load_log.append(['A', type(exc).__name__ + ' (reload)'])
+    out = {'load': load_log, 'answers': [ask(mds, a) for a in case['answers']], 'docA': docs['A']}
     return out
 
 
